@@ -5,7 +5,7 @@
 
 package parser
 
-//@ props C01 C19
+//@ props C01
 
 //@ wf elems
 //@ default opaque
